@@ -108,6 +108,14 @@ def gen_secret(rng, cls, plain_alpha=False, allow_all_digit_type7=False, reserve
             plain = _rand(rng, string.digits, 10, 16)
         elif plain_class == "hex":
             plain = rng.choice("23456789") + _rand(rng, "0123456789abcdef", 11, 20) + "e"
+        elif plain_class in ("hex32", "hex64"):
+            # a key of a fixed size (MACsec CAK, IPsec key) stored as $9$
+            n = 32 if plain_class == "hex32" else 64
+            plain = rng.choice("23456789") + _rand(rng, "0123456789abcdef", n - 2, n - 2) + "e"
+        elif plain_class == "type7":
+            plain = decoders.type7_encode(_rand(rng, string.ascii_letters + string.digits, 6, 12), rng.randint(0, 15))
+        elif plain_class == "md5":
+            plain = "$1$%s$%s" % (_rand(rng, _H64, 4, 8), _rand(rng, _H64, 22, 22))
         elif reserved_variants and rng.random() < 0.12:
             # a $9$ secret whose plaintext happens to be a reserved word (admin, cisco, test ...)
             from .. import load
